@@ -11,6 +11,8 @@ EXTENDS Pipeline, Json
 MCIds == {"imgA", "imgB", "imgC"}
 MCKind == [imgA |-> "ok", imgB |-> "nofetch", imgC |-> "nosave"]
 MCFeed == <<"imgA", "imgC", "imgB">>
+MCFree == <<>>
+MCFixed == MCFeed      \* a fixed listing order (any permutation of MCIds)
 
 \* TLC's evaluation of the sentences in a state (the harness looks for the states where one is FALSE)
 Sentences == [TodoHasCandidate |-> TodoHasCandidate, OutputWasFetched |-> OutputWasFetched,
@@ -24,4 +26,6 @@ Plain(S) == [offered |-> S.offered, area |-> S.area, dirs |-> S.dirs, store |-> 
 EmitState == PrintT(<<"S", ToJson([s |-> Plain(State), sent |-> Sentences,
                                    succ |-> {[c |-> c, out |-> Result(State, c).out, t |-> Plain(Result(State, c).s)] :
                                              c \in Allowed(State)}])>>)
+\* how TLC prints the states of a counterexample (cfg: ALIAS TraceAlias): the harness reads them back as JSON
+TraceAlias == [json |-> ToJson(Plain(State))]
 =============================================================================
